@@ -98,9 +98,10 @@ def main():
     only = opt("--only", None)
     tier = opt("--tier", "quick")
     todo = [p for p in patches() if only is None or only in p[0]]
+    declared_only = "--declared-only" in a
     results = []
     with ThreadPoolExecutor(max_workers=jobs) as ex:
-        futs = [ex.submit(run_one, n, f, props, tier, True) for n, f, _ in todo]
+        futs = [ex.submit(run_one, n, f, ([d] if declared_only and d else props), tier, True) for n, f, d in todo]
         for (n, f, prop), fu in zip(todo, futs):
             r = fu.result()
             r["declared_property"] = prop
